@@ -129,4 +129,4 @@ if __name__ == '__main__':
     a = ap.parse_args()
     if getattr(a, 'only', None) or getattr(a, 'caps', None):
         os.environ['VERIF_PARTIAL'] = '1'
-    sys.exit((c16_main if a.prop == 'C16' else main)(a.tier, a.only))
+    sys.exit(guarded_main(lambda: (c16_main if a.prop == 'C16' else main)(a.tier, a.only)))
